@@ -56,4 +56,29 @@ theorem rejected_block_no_change (s : State) (b : Block) (e : String) (h : execS
     applyOp s (.exec b) = s := by
   simp [applyOp, h]
 
+/-- **end to end from the genesis block**: start from the empty database, execute the genesis block
+(one transaction, no inputs, one output) and then ANY history — the unspent coins are exactly the genesis
+output's coins and no output id occurs twice -/
+theorem supply_from_genesis {cfg : Cfg} {gb : Block} {t : Txn} {o : Out} {s0 : State} (ops : List Op)
+    (hb : gb.txns = [t]) (hi : t.ins = []) (ho : t.outs = [o])
+    (h : execSigned { cfg := cfg } gb = .ok s0) (hwf : ∀ op ∈ ops, OpOK op) :
+    coinsOfUx (run s0 ops).unspent = o.coins ∧ ((run s0 ops).unspent.map (·.id)).Nodup :=
+  ⟨supply_conserved s0 ops (genesis_good hb hi ho h) hwf,
+   unspent_ids_unique s0 ops (genesis_good hb hi ho h) hwf⟩
+
+/-- **one step, stated without reference to a supply constant**: an accepted block neither creates nor
+destroys coins — the unspent sum after equals the unspent sum before -/
+theorem accepted_block_keeps_supply {s s' : State} {b g : Block} (hinj : HashInj b.txns)
+    (hg : s.chain.head? = some g) (hnd : (s.unspent.map (·.id)).Nodup)
+    (hwf : ∀ t ∈ b.txns, WfSound t) (h : execSigned s b = .ok s') :
+    coinsOfUx s'.unspent = coinsOfUx s.unspent :=
+  (exec_preserves_inv hinj hg ⟨hnd, rfl⟩ hwf h).2
+
+/-- the head of the chain never goes back: the genesis block stays at the bottom of the chain after every
+history (together with `supply_conserved`: the supply is that of THIS genesis block) -/
+theorem genesis_stays {G : Nat} {g : Block} {cfg : Cfg} (s0 : State) (ops : List Op)
+    (h0 : Good G g cfg s0) (hwf : ∀ op ∈ ops, OpOK op) :
+    (run s0 ops).chain.head? = some g ∧ (run s0 ops).cfg = cfg :=
+  ⟨(good_run s0 ops h0 hwf).1, (good_run s0 ops h0 hwf).2.1⟩
+
 end Sky.Props.C01
